@@ -1,5 +1,6 @@
 use crate::framework::Scenario;
 
+pub mod c02_decode;
 pub mod c10_memory;
 pub mod c11_framing;
 pub mod c12_sequence;
@@ -31,6 +32,7 @@ pub fn all() -> Vec<Box<dyn Scenario>> {
     for id in ["C07", "C08", "C09"] {
         v.push(Box::new(wire_family::Wire { id }));
     }
+    v.push(Box::new(c02_decode::C02));
     v.push(Box::new(c10_memory::C10));
     v.push(Box::new(c12_sequence::C12));
     v.push(Box::new(c14_renewal::C14));
